@@ -1,6 +1,7 @@
 (* The executable instance of the simulator model: binary64 times as bit patterns (Flocq), Script processes,
    the draw stream supplied with the scenario. *)
-From ASV Require Import Base.Util Base.Msg Base.Log Model.Script Model.Sim Base.TimeF64.
+From ASV Require Import Base.Util Base.Msg Base.Log Model.Store Spec.StoreSpec Model.McSys Model.Script Model.Sim Base.TimeF64
+     Model.McInst Model.Snapshot.
 
 Definition y_sys := @simsys N (pstate N).
 
@@ -16,3 +17,7 @@ Section SimInst.
   Definition y_sys0 : y_sys := sys0 f64_ops.
   Definition y_dump (s : y_sys) := q_dump f64_ops (y_q s).
 End SimInst.
+
+(* ModelChecker::new on the executable instances *)
+Definition y_snapshot : y_sys -> result i_sys := snapshot f64_ops c_ops.
+Definition y_snapshot_ref : y_sys -> result r_sys := snapshot f64_ops a_ops.
